@@ -42,10 +42,11 @@ class Trace:
                         self.inputs.append(dict(eid=eid, src=act[1], val=val_from_json(vj), md=[], step=step, t=o["now"]))
                         eid += 1
                 elif act[0] == "mix":
+                    when = dict((e_, t_) for e_, t_ in o.get("emit_t", []))
                     for sa in act[2]:
                         if sa[0] == "emit":
                             self.inputs.append(dict(eid=eid, src=sa[1], val=val_from_json(sa[2]),
-                                                    md=[tuple(m) for m in sa[3]], step=step, t=o["now"]))
+                                                    md=[tuple(m) for m in sa[3]], step=step, t=when.get(eid, o["now"])))
                             eid += 1
                 elif act[0] in ("ack", "ackfail"):
                     if outstanding and "mixacks" not in o:      # (older recorded traces: replicate the FIFO)
